@@ -20,6 +20,10 @@ import ClarabelProofs.Lemmas.Update
 import ClarabelProofs.Lemmas.UpdateAbs
 import ClarabelProofs.Lemmas.UpdateDense
 import ClarabelProofs.Props.C01
+import ClarabelProofs.Lemmas.UpdateOwnMaps
+import ClarabelProofs.Lemmas.UpdateFreshEquiv
+import ClarabelProofs.Lemmas.UpdateGuard
+import ClarabelProofs.Lemmas.UpdateReject
 import Mathlib.Tactic.IntervalCases
 
 namespace Clarabel.C08
@@ -355,6 +359,439 @@ theorem next_solve_certified (st : State α) (h : st.ScaleOK) (ops : List (Op α
 
 end certified
 
+/-! ### round 3: the solver's OWN maps — `MapsOK` discharged (C11, C12) -/
+
+section ownmaps
+open Clarabel.Lemmas.KktSpec (KktInputs)
+variable [OfNat α 0]
+
+/-- [S] **`MapsOK` and `KktSync` hold for the maps the solver builds itself.**  Let `K` be the
+`DirectLDLKKTSolver` the whole-solver model constructs from the internal data `d`
+(`Solver.KktSolver.new` = `assemble_kkt_matrix` (triu) + `QDLDLFactorisation::new` =
+`permute_symmetric`), for inputs satisfying C11's `KktInputs` (canonical upper-triangular square
+`P`, canonical `A`, `Σ numel = m`).  Then the C08 state read off `(d, K)` (`State.ofSolver`)
+satisfies `MapsOK` — `map.P`, `map.A` have one slot per stored value, point into `KKT.nzval`
+and are jointly injective (imported `C11.assembly_maps` coordinates + `AsmRun` slot
+distinctness); `AtoPAPt` is an injective map onto `triuA.nzval` (imported
+`C12.permute_symmetric`) — and `KktSync`: both copies hold the values of `P̂`, `Â`. -/
+theorem own_maps_ok [Add α] [Sub α] [Mul α] [Div α] [Neg α] [OfNat α 1] [LT α] [DecidableLT α]
+    [BEq α] [FloatLike α] (d : ProblemData α) (cones : List (Solver.ConeSt α))
+    (lin : Solver.LinSettings α) (perm : Array Nat) (K : Solver.KktSolver α) (dec : Bool)
+    (h : Solver.KktSolver.new d.P d.A cones d.m d.n lin perm = .ok K)
+    (hin : KktInputs d.P d.A (cones.map Solver.ConeSt.kktSpec)) :
+    (State.ofSolver d K dec).MapsOK ∧ (State.ofSolver d K dec).KktSync :=
+  kktSolver_new_inv_own d cones lin perm K dec h hin
+
+/-- [S] the same from the two component equations (any state whose maps ARE the outputs of
+`assemble_kkt_matrix` and `permute_symmetric`). -/
+theorem own_maps_ok_of_assembly {P A : Csc α} {cones : List Kkt.ConeSpec} {K T : Csc α}
+    {map : Kkt.LDLDataMap} {iperm atop : Array Nat} (st : State α) (hin : KktInputs P A cones)
+    (hasm : Kkt.assembleKktMatrix P A cones .triu = .ok (K, map))
+    (hperm : Qdldl.permuteSymmetric K iperm = .ok (T, atop))
+    (hP : st.P = P) (hA : st.A = A) (hmP : st.mapP = map.P) (hmA : st.mapA = map.A)
+    (hk : st.kkt = K.nzval) (hat : st.atoPAPt = atop) (hl : st.ldl = T.nzval) :
+    st.MapsOK ∧ st.KktSync :=
+  inv_of_assembly_own st hin hasm hperm hP hA hmP hmA hk hat hl
+
+/-- [S] **`kkt_in_sync` with no `MapsOK` / `KktSync` hypothesis**: starting from the state of a
+freshly constructed solver (its own maps), after every finite history of whole-form operations
+and solves the KKT matrix and QDLDL's permuted copy hold the internal `P̂`, `Â` values. -/
+theorem kkt_in_sync_own [Add α] [Sub α] [Mul α] [Div α] [Neg α] [OfNat α 1] [LT α] [DecidableLT α]
+    [BEq α] [FloatLike α] (d : ProblemData α) (cones : List (Solver.ConeSt α))
+    (lin : Solver.LinSettings α) (perm : Array Nat) (K : Solver.KktSolver α) (dec : Bool)
+    (h : Solver.KktSolver.new d.P d.A cones d.m d.n lin perm = .ok K)
+    (hin : KktInputs d.P d.A (cones.map Solver.ConeSt.kktSpec))
+    (ops : List (Op α)) (hw : ∀ op ∈ ops, isWholeOp op = true) :
+    (run (State.ofSolver d K dec) ops).1.KktSync ∧ (run (State.ofSolver d K dec) ops).1.MapsOK := by
+  obtain ⟨hm, hs⟩ := own_maps_ok d cones lin perm K dec h hin
+  exact kkt_in_sync_run ops _ hs hm hw
+
+/-- [S] … and for histories with partial `(index,value)` forms as long as each operation is
+accepted or in whole form (`AcceptedRun`): the three invariants `KktSync`, `MapsOK`,
+`NormCacheOK` hold after the history. -/
+theorem invariants_own [Add α] [Sub α] [Mul α] [Div α] [Neg α] [OfNat α 1] [LT α] [DecidableLT α]
+    [BEq α] [FloatLike α] (d : ProblemData α) (cones : List (Solver.ConeSt α))
+    (lin : Solver.LinSettings α) (perm : Array Nat) (K : Solver.KktSolver α) (dec : Bool)
+    (h : Solver.KktSolver.new d.P d.A cones d.m d.n lin perm = .ok K)
+    (hin : KktInputs d.P d.A (cones.map Solver.ConeSt.kktSpec))
+    (hn : (State.ofSolver d K dec).NormCacheOK)
+    (ops : List (Op α)) (ha : AcceptedRun (State.ofSolver d K dec) ops) :
+    (run (State.ofSolver d K dec) ops).1.KktSync ∧ (run (State.ofSolver d K dec) ops).1.MapsOK ∧
+      (run (State.ofSolver d K dec) ops).1.NormCacheOK := by
+  obtain ⟨hm, hs⟩ := own_maps_ok d cones lin perm K dec h hin
+  exact fe_run_inv ops _ ⟨hs, hm, hn⟩ ha
+
+end ownmaps
+
+/-! ### round 3: state equivalence with a rebuilt solver -/
+
+section rebuilt
+
+/-- `AcceptedRun` for whole-form histories -/
+theorem acceptedRun_of_isWhole (ops : List (Op α)) [Mul α] [Div α] [OfNat α 0] [OfNat α 1] [LT α]
+    [DecidableLT α] [Add α] [Sub α] [FloatLike α]
+    (h : ∀ op ∈ ops, isWholeOp op = true) (st : State α) : AcceptedRun st ops :=
+  acceptedRun_of_whole ops (fun op ho => by
+    have := h op ho
+    cases op <;> exact this) st
+
+variable [Field α] [FloatLike α]
+
+/-- [F] **state equivalence.**  After any history in which every operation is accepted or in
+whole form, the updated solver's state `st'` equals, component by component, the state
+`st.rebuilt u'` that construction would leave from the FINAL user data `u' = abs st'` on the same
+patterns and maps with the equilibration FROZEN at the original `(d, e, c)`
+(`EquivRebuilt`): the internal `P̂ = c·D·P'·D`, `q̂ = c·D·q'`, `Â = E·A'·D`, `b̂ = E·b'` (full `Csc`
+equality), all of `d, dinv, e, einv, c`, flags and maps unchanged, both value copies equal at
+every data position (the LDL copy except diagonal positions while a regularised diagonal is
+pending), norm caches absent or valid.  The equilibration vectors are the ONLY thing that
+distinguishes it from `new(final data)`: by `fresh_data_same_form` a freshly equilibrated
+solver's data have exactly this form with its own `(d, e, c)`. -/
+theorem state_equiv_rebuilt (st : State α) (h : st.ScaleOK) (hm : st.MapsOK) (hs : st.KktSync)
+    (hn : st.NormCacheOK) (ops : List (Op α)) (ha : AcceptedRun st ops) :
+    EquivRebuilt st (run st ops).1 :=
+  run_equiv_rebuilt st h hm hs hn ops ha
+
+/-- [F] the data part for EVERY history (rejected partial updates included): the internal data
+are the original equilibration re-applied to the plain-overwrite result of the specification. -/
+theorem data_eq_scaled_spec (st : State α) (h : st.ScaleOK) (ops : List (Op α)) :
+    let u' := (specRun (checkDataUpdateAllowed st) st.P st.A st.abs ops).1
+    let st' := (run st ops).1
+    st'.abs = u' ∧ st'.P = { st.P with nzval := (st.scaledValues u').P } ∧
+    st'.q = (st.scaledValues u').q ∧
+    st'.A = { st.A with nzval := (st.scaledValues u').A } ∧ st'.b = (st.scaledValues u').b :=
+  run_data_eq_scaled_spec st h ops
+
+/-- [F] **the fresh side**: the data of a freshly constructed, equilibrated solver are
+`scaledValues` of the user data with ITS OWN accumulated `(d, e, c)` (imported `C10.scaled_data`)
+— the same closed form as `state_equiv_rebuilt`, with different positive diagonal scalings. -/
+theorem fresh_data_same_form [LinearOrder α] [IsStrictOrderedRing α] (dt dt' : ProblemData α)
+    (cones : List (ConeT α)) (s : Equil.Settings α) (hen : s.enable = true)
+    (hfresh : dt.equilibration = EquilData.new dt.n dt.m)
+    (h : Equil.equilibrate dt cones s = .ok dt') (rest : State α) :
+    (rest.withData dt').scaledValues ⟨dt.P.nzval, dt.q, dt.A.nzval, dt.b⟩ =
+      ⟨dt'.P.nzval, dt'.q, dt'.A.nzval, dt'.b⟩ :=
+  fresh_solver_data_eq_scaledValues dt dt' cones s hen hfresh h rest
+
+/-- [F] norm caches after an accepted history: whatever a cache holds, and whatever
+`get_normq / get_normb` recompute, is the ∞-norm of the FINAL user-level `q`, `b`. -/
+theorem norms_are_final_user_norms [LinearOrder α] [IsStrictOrderedRing α] [LawfulFloatLike α]
+    {st0 st' : State α} (h : EquivRebuilt st0 st')
+    (hszd : st0.dinv.size = st0.q.size) (hsze : st0.einv.size = st0.b.size)
+    (hdinv : ∀ i, i < st0.q.size → st0.dinv.getD i 0 = 1 / st0.d.getD i 0)
+    (heinv : ∀ i, i < st0.b.size → st0.einv.getD i 0 = 1 / st0.e.getD i 0) (hc : 0 < st0.c) :
+    getNormq st' = Vec.normInf st'.abs.q ∧ getNormb st' = Vec.normInf st'.abs.b ∧
+    (∀ v, st'.normq = some v → v = Vec.normInf st'.abs.q) ∧
+    (∀ v, st'.normb = some v → v = Vec.normInf st'.abs.b) :=
+  h.norms_final_user hszd hsze hdinv heinv hc
+
+/-- [F] cone uniformity of the equilibration survives data updating (`e` is never changed), so
+C01's cone-membership transfer applies to the updated solver with the ORIGINAL scalings. -/
+theorem cone_uniformity_kept (st : State α) (ops : List (Op α)) (n m lo len : ℕ) (e₀ : α)
+    (hu : ∀ k, k < len → st.e.getD (lo + k) 0 = e₀) :
+    let st' := (run st ops).1
+    let sc : Dense.Scaling α n m := st'.scaling n m
+    (∀ k, k < len → st'.e.getD (lo + k) 0 = e₀) ∧ sc = st.scaling n m ∧
+    ∀ (sh zh : Fin m → α) (τ : α) (i : Fin m), lo ≤ i.val → i.val < lo + len →
+      Dense.unS sc τ sh i = sh i * (1 / e₀ * (1 / τ)) ∧
+      Dense.unZ sc τ zh i = zh i * (e₀ * (1 / τ * (1 / sc.c))) :=
+  frame_keeps_cone_uniformity st ops n m lo len e₀ hu
+
+end rebuilt
+
+section certified_verdict
+open Clarabel.Dense Clarabel.Info
+variable {n m : ℕ}
+
+/-- [F] **a `Solved` verdict of the updated solver certifies the FINAL user problem** (over `ℝ`;
+`state_equiv_rebuilt` + imported `C01.certificate`).  After any accepted history from a live
+state with positive scalings and `dinv = 1/d`, `einv = 1/e`: the norms the next solve uses
+(`get_normb`, `get_normq`, cached or recomputed) are `‖b'‖∞`, `‖q'‖∞` of the final user data; the
+internal problem it iterates on is `p.scaled sc` for the FINAL user problem `p` and the ORIGINAL
+scalings `sc`; hence if `info` carries the values `Info.update` assigns for an internal iterate
+and `check_convergence_full` turns a non-`Solved` status into `Solved`, the un-scaled point meets
+the documented termination test (primal residual, dual residual, gap) for `p` to the documented
+tolerances.  What remains EMPIRICAL in "behaves as a fresh solver": that the updated and the fresh
+solver reach the same verdict class along their (different) iteration paths — both verdicts are
+certificates for the same final data, but the stale equilibration may be a poor one (known
+finding `KF-C08-stale-equilibration`). -/
+theorem solved_certifies_final_problem (st : State ℝ) (h : st.ScaleOK) (hmaps : st.MapsOK)
+    (hs : st.KktSync) (hnc : st.NormCacheOK) (ops : List (Op ℝ)) (ha : AcceptedRun st ops)
+    (hn : n = st.q.size) (hm : m = st.b.size)
+    (hd : ∀ i, i < n → 0 < st.d.getD i 0) (he : ∀ i, i < m → 0 < st.e.getD i 0)
+    (hc : 0 < st.c)
+    (hszd : st.dinv.size = st.q.size) (hsze : st.einv.size = st.b.size)
+    (hdinv : ∀ i, i < st.q.size → st.dinv.getD i 0 = 1 / st.d.getD i 0)
+    (heinv : ∀ i, i < st.b.size → st.einv.getD i 0 = 1 / st.e.getD i 0) :
+    let st' := (run st ops).1
+    let p : Problem ℝ n m := st'.denseUser n m
+    let sc : Scaling ℝ n m := st.scaling n m
+    let normb := Vec.normInf st'.abs.b
+    let normq := Vec.normInf st'.abs.q
+    getNormb st' = normb ∧ getNormq st' = normq ∧
+    ∀ (xh : Fin n → ℝ) (sh zh : Fin m → ℝ) (τ : ℝ), 0 < τ →
+    ∀ (i : InfoS ℝ) (bz qx : ℝ) (s : Settings ℝ),
+      i.res_primal = intResPrimal (st'.denseInternal n m) sc xh sh τ (getNormb st') →
+      i.res_dual = intResDual (st'.denseInternal n m) sc xh zh τ (getNormq st') →
+      i.cost_primal = intCostPrimal (st'.denseInternal n m) sc xh τ →
+      i.cost_dual = intCostDual (st'.denseInternal n m) sc xh zh τ →
+      i.gap_abs = |i.cost_primal - i.cost_dual| →
+      i.gap_rel = i.gap_abs / max 1 (min |i.cost_primal| |i.cost_dual|) →
+      i.status ≠ .solved →
+      (checkConvergenceFull i bz qx s).status = .solved →
+      let x := unX sc τ xh
+      let sv := unS sc τ sh
+      let z := unZ sc τ zh
+      let pobj := dot x (mulV p.P x) / 2 + dot p.q x
+      let dobj := -dot p.b z - dot x (mulV p.P x) / 2
+      nrm (fun i => mulV p.A x i + sv i - p.b i) / max 1 (normb + nrm x + nrm sv) < s.full.feas
+      ∧ nrm (fun j => mulV p.P x j + mulVT p.A z j + p.q j) / max 1 (normq + nrm x + nrm z)
+          < s.full.feas
+      ∧ (|pobj - dobj| < s.full.gap_abs
+          ∨ |pobj - dobj| / max 1 (min |pobj| |dobj|) < s.full.gap_rel) :=
+  solved_certifies_final_data_cached st h hmaps hs hnc ops ha hn hm hd he hc hszd hsze hdinv heinv
+
+end certified_verdict
+
+/-! ### round 3: the complete rejection table (every error kind as an exact iff-condition) -/
+
+section rejection
+variable [Mul α] [OfNat α 0]
+
+/-- [S] **rejection table of `update_vector`**, every argument form -/
+theorem rejection_table_vector (arg : VecArg α) (v vscale : Array α) (cs : Option α) :
+    match arg with
+    | .empty0 => updateVector .empty0 v vscale cs = (v, .ok ())
+    | .slice data =>
+      (∀ e, (updateVector (.slice data) v vscale cs).2 = .error e ↔
+          (data.size ≠ 0 ∧ data.size ≠ v.size ∧ e = .incompatibleDimension)) ∧
+      ((updateVector (.slice data) v vscale cs).2 = .ok () ↔
+          (data.size = 0 ∨ data.size = v.size)) ∧
+      ((∃ e, (updateVector (.slice data) v vscale cs).2 = .error e) →
+          (updateVector (.slice data) v vscale cs).1 = v) ∧
+      (data.size = 0 → (updateVector (.slice data) v vscale cs).1 = v)
+    | .pairs idx vals =>
+      (∀ e, (updateVector (.pairs idx vals) v vscale cs).2 = .error e ↔
+          (e = .incompatibleDimension ∧
+            ∃ k, k < idx.size ∧ k < vals.size ∧ v.size ≤ idx.getD k 0)) ∧
+      ((updateVector (.pairs idx vals) v vscale cs).2 = .ok () ↔
+          ∀ k, k < idx.size → k < vals.size → idx.getD k 0 < v.size) ∧
+      (updateVector (.pairs idx vals) v vscale cs).1 =
+        ((idx.toList.zip vals.toList).takeWhile (fun p => decide (p.1 < v.size))).foldl
+          (fun a p => a.setIfInBounds p.1 (vscaleFull vscale cs p.1 p.2)) v :=
+  updateVector_result_table arg v vscale cs
+
+/-- [S] **rejection table of `update_matrix`**, every argument form -/
+theorem rejection_table_matrix (arg : MatArg α) (M : Csc α) (l r : Array α) (cs : Option α) :
+    (match arg with
+    | .empty0 => updateMatrix .empty0 M l r cs = (M, .ok ())
+    | .slice data =>
+      (∀ e, (updateMatrix (.slice data) M l r cs).2 = .error e ↔
+          (data.size ≠ 0 ∧ data.size ≠ M.nzval.size ∧ e = .incompatibleDimension)) ∧
+      ((updateMatrix (.slice data) M l r cs).2 = .ok () ↔
+          (data.size = 0 ∨ data.size = M.nzval.size)) ∧
+      (data.size = 0 → (updateMatrix (.slice data) M l r cs).1 = M)
+    | .matrix U =>
+      ((updateMatrix (.matrix U) M l r cs).2 = .error .incompatibleDimension ↔
+        ((U.m ≠ M.m ∨ U.n ≠ M.n) ∨
+          (U.m = M.m ∧ U.n = M.n ∧ U.colptr = M.colptr ∧ U.rowval = M.rowval ∧
+            U.nzval.size ≠ 0 ∧ U.nzval.size ≠ M.nzval.size))) ∧
+      ((updateMatrix (.matrix U) M l r cs).2 = .error .sparsityMismatch ↔
+        (U.m = M.m ∧ U.n = M.n ∧ (U.colptr ≠ M.colptr ∨ U.rowval ≠ M.rowval))) ∧
+      ((updateMatrix (.matrix U) M l r cs).2 = .ok () ↔
+        (U.m = M.m ∧ U.n = M.n ∧ U.colptr = M.colptr ∧ U.rowval = M.rowval ∧
+          (U.nzval.size = 0 ∨ U.nzval.size = M.nzval.size)))
+    | .pairs idx vals =>
+      (∀ e, (updateMatrix (.pairs idx vals) M l r cs).2 = .error e ↔
+          (e = .incompatibleDimension ∧
+            ∃ k, k < idx.size ∧ k < vals.size ∧ M.nzval.size ≤ idx.getD k 0)) ∧
+      ((updateMatrix (.pairs idx vals) M l r cs).2 = .ok () ↔
+          ∀ k, k < idx.size → k < vals.size → idx.getD k 0 < M.nzval.size) ∧
+      (updateMatrix (.pairs idx vals) M l r cs).1 =
+        { M with
+          nzval :=
+            ((idx.toList.zip vals.toList).takeWhile (fun p => decide (p.1 < M.nzval.size))).foldl
+              (fun a p => a.setIfInBounds p.1 (scalePair M l r cs p.1 p.2)) M.nzval }) ∧
+    -- no other error kind, for every form
+    (∀ e, (updateMatrix arg M l r cs).2 = .error e →
+      e = .incompatibleDimension ∨ (e = .sparsityMismatch ∧ ∃ U, arg = .matrix U)) ∧
+    -- a rejected whole form returns `M` unchanged
+    (arg.isWhole = true → ∀ e, (updateMatrix arg M l r cs).2 = .error e →
+      (updateMatrix arg M l r cs).1 = M) :=
+  updateMatrix_result_table arg M l r cs
+
+/-- [S] **zip truncation**: the pair forms see `index` and `values` only through
+`zip(index, values)` — i.e. through their prefixes of length `min index.len() values.len()`.
+A bad index beyond the shorter length is never examined, surplus values are ignored: result
+AND written data are those of the truncated arguments. -/
+theorem pairs_zip_truncation (idx : Array Nat) (vals : Array α) :
+    let k := min idx.size vals.size
+    (∀ (v vscale : Array α) (cs : Option α),
+      updateVector (.pairs idx vals) v vscale cs
+        = updateVector (.pairs (idx.extract 0 k) (vals.extract 0 k)) v vscale cs) ∧
+    (∀ (M : Csc α) (l r : Array α) (cs : Option α),
+      updateMatrix (.pairs idx vals) M l r cs
+        = updateMatrix (.pairs (idx.extract 0 k) (vals.extract 0 k)) M l r cs) :=
+  pairs_truncation idx vals
+
+/-- [S] **rejection table of `update_P`**: `PresolveIsActive` first, then
+`ChordalDecompositionIsActive`, then the format error of `update_matrix` on `(P̂, d, d, c)`;
+`Ok` iff none of these; the only possible `BadFormat` payloads are `IncompatibleDimension`
+and `SparsityMismatch` (the latter only for a `CscMatrix` argument).  Since
+`DataUpdateError` has exactly the three constructors named, no other value can occur. -/
+theorem rejection_table_update_P (st : State α) (arg : MatArg α) :
+    ((updateP st arg).2 = .error .presolveIsActive ↔ st.presolved = true) ∧
+    ((updateP st arg).2 = .error .chordalDecompositionIsActive ↔
+      (st.presolved = false ∧ st.decomposed = true)) ∧
+    (∀ e, (updateP st arg).2 = .error (.badFormat e) ↔
+      (st.presolved = false ∧ st.decomposed = false ∧
+        (updateMatrix arg st.P st.d st.d (some st.c)).2 = .error e)) ∧
+    ((updateP st arg).2 = .ok () ↔
+      (st.presolved = false ∧ st.decomposed = false ∧
+        (updateMatrix arg st.P st.d st.d (some st.c)).2 = .ok ())) ∧
+    (∀ e, (updateP st arg).2 = .error (.badFormat e) →
+      e = .incompatibleDimension ∨ (e = .sparsityMismatch ∧ ∃ U, arg = .matrix U)) :=
+  updateP_result_table st arg
+
+/-- [S] **rejection table of `update_A`** (`update_matrix` on `(Â, e, d, None)`) -/
+theorem rejection_table_update_A (st : State α) (arg : MatArg α) :
+    ((updateA st arg).2 = .error .presolveIsActive ↔ st.presolved = true) ∧
+    ((updateA st arg).2 = .error .chordalDecompositionIsActive ↔
+      (st.presolved = false ∧ st.decomposed = true)) ∧
+    (∀ e, (updateA st arg).2 = .error (.badFormat e) ↔
+      (st.presolved = false ∧ st.decomposed = false ∧
+        (updateMatrix arg st.A st.e st.d none).2 = .error e)) ∧
+    ((updateA st arg).2 = .ok () ↔
+      (st.presolved = false ∧ st.decomposed = false ∧
+        (updateMatrix arg st.A st.e st.d none).2 = .ok ())) ∧
+    (∀ e, (updateA st arg).2 = .error (.badFormat e) →
+      e = .incompatibleDimension ∨ (e = .sparsityMismatch ∧ ∃ U, arg = .matrix U)) :=
+  updateA_result_table st arg
+
+/-- [S] **rejection table of `update_q`** (`update_vector` on `(q̂, d, c)`); the only
+`BadFormat` payload is `IncompatibleDimension` -/
+theorem rejection_table_update_q (st : State α) (arg : VecArg α) :
+    ((updateQ st arg).2 = .error .presolveIsActive ↔ st.presolved = true) ∧
+    ((updateQ st arg).2 = .error .chordalDecompositionIsActive ↔
+      (st.presolved = false ∧ st.decomposed = true)) ∧
+    (∀ e, (updateQ st arg).2 = .error (.badFormat e) ↔
+      (st.presolved = false ∧ st.decomposed = false ∧
+        (updateVector arg st.q st.d (some st.c)).2 = .error e)) ∧
+    ((updateQ st arg).2 = .ok () ↔
+      (st.presolved = false ∧ st.decomposed = false ∧
+        (updateVector arg st.q st.d (some st.c)).2 = .ok ())) ∧
+    (∀ e, (updateQ st arg).2 = .error (.badFormat e) → e = .incompatibleDimension) :=
+  updateQ_result_table st arg
+
+/-- [S] **rejection table of `update_b`** (`update_vector` on `(b̂, e, None)`) -/
+theorem rejection_table_update_b (st : State α) (arg : VecArg α) :
+    ((updateB st arg).2 = .error .presolveIsActive ↔ st.presolved = true) ∧
+    ((updateB st arg).2 = .error .chordalDecompositionIsActive ↔
+      (st.presolved = false ∧ st.decomposed = true)) ∧
+    (∀ e, (updateB st arg).2 = .error (.badFormat e) ↔
+      (st.presolved = false ∧ st.decomposed = false ∧
+        (updateVector arg st.b st.e none).2 = .error e)) ∧
+    ((updateB st arg).2 = .ok () ↔
+      (st.presolved = false ∧ st.decomposed = false ∧
+        (updateVector arg st.b st.e none).2 = .ok ())) ∧
+    (∀ e, (updateB st arg).2 = .error (.badFormat e) → e = .incompatibleDimension) :=
+  updateB_result_table st arg
+
+/-- [S] every possible `Result` of the four operations, as a finite list -/
+theorem rejection_result_values (st : State α) (pa : MatArg α) (va : VecArg α) :
+    (∀ r, r = (updateP st pa).2 ∨ r = (updateA st pa).2 →
+      r = .ok () ∨ r = .error .presolveIsActive ∨ r = .error .chordalDecompositionIsActive ∨
+      r = .error (.badFormat .incompatibleDimension) ∨ r = .error (.badFormat .sparsityMismatch)) ∧
+    (∀ r, r = (updateQ st va).2 ∨ r = (updateB st va).2 →
+      r = .ok () ∨ r = .error .presolveIsActive ∨ r = .error .chordalDecompositionIsActive ∨
+      r = .error (.badFormat .incompatibleDimension)) :=
+  update_result_values_table st pa va
+
+/-- [S] **rejection table of `update_data`, mixed argument forms.**
+With `accP st p = (update_matrix p on (P̂,d,d,c)).2`, `accQ`, `accA`, `accB` evaluated on the
+ORIGINAL state:
+* a guard is active ⇒ the guard error, state unchanged;
+* otherwise `BadFormat e` iff `e` is the error of the FIRST rejecting component in the order
+  `P, q, A, b`; `Ok` iff all four are accepted;
+* the state returned on an error at component `i` is the state after the single updates of the
+  components `< i` followed by the (possibly partial, for the pair forms) effect of component
+  `i`: `update_data` is the composition `update_P; update_q; update_A; update_b` cut after the
+  first error. -/
+theorem rejection_table_update_data (st : State α) (p : MatArg α) (q : VecArg α) (a : MatArg α)
+    (b : VecArg α) :
+    let s1 := (updateP st p).1
+    let s2 := (updateQ s1 q).1
+    let s3 := (updateA s2 a).1
+    -- the result
+    ((updateData st p q a b).2 = .error .presolveIsActive ↔ st.presolved = true) ∧
+    ((updateData st p q a b).2 = .error .chordalDecompositionIsActive ↔
+      (st.presolved = false ∧ st.decomposed = true)) ∧
+    (∀ e, (updateData st p q a b).2 = .error (.badFormat e) ↔
+      (st.presolved = false ∧ st.decomposed = false ∧
+        (accP st p = .error e ∨
+         (accP st p = .ok () ∧ accQ st q = .error e) ∨
+         (accP st p = .ok () ∧ accQ st q = .ok () ∧ accA st a = .error e) ∨
+         (accP st p = .ok () ∧ accQ st q = .ok () ∧ accA st a = .ok () ∧ accB st b = .error e)))) ∧
+    ((updateData st p q a b).2 = .ok () ↔
+      (st.presolved = false ∧ st.decomposed = false ∧
+        accP st p = .ok () ∧ accQ st q = .ok () ∧ accA st a = .ok () ∧ accB st b = .ok ())) ∧
+    (∀ e, (updateData st p q a b).2 = .error (.badFormat e) →
+      e = .incompatibleDimension ∨
+      (e = .sparsityMismatch ∧ ((∃ U, p = .matrix U) ∨ (∃ U, a = .matrix U)))) ∧
+    -- the state
+    (∀ g, checkDataUpdateAllowed st = .error g → updateData st p q a b = (st, .error g)) ∧
+    (checkDataUpdateAllowed st = .ok () →
+      (∀ e, accP st p = .error e → updateData st p q a b = (s1, .error (.badFormat e))) ∧
+      (∀ e, accP st p = .ok () → accQ st q = .error e →
+        updateData st p q a b = (s2, .error (.badFormat e))) ∧
+      (∀ e, accP st p = .ok () → accQ st q = .ok () → accA st a = .error e →
+        updateData st p q a b = (s3, .error (.badFormat e))) ∧
+      (accP st p = .ok () → accQ st q = .ok () → accA st a = .ok () →
+        updateData st p q a b = ((updateB s3 b).1, fmtToRes (accB st b)))) :=
+  updateData_result_table st p q a b
+
+/-- [S] **`update_data` is not atomic.**  All four arguments in whole forms (`[T;0]`, `[T]`,
+`Vec<T>`, `CscMatrix`), no guard active.  If the call is rejected at component `i`, the
+rejected component itself changes nothing, but the components before it HAVE been applied:
+the returned state is the one after the accepted single updates `< i` (data, KKT copies and
+norm-cache flush included), not the original one. -/
+theorem update_data_not_atomic (st : State α) (p : MatArg α) (q : VecArg α) (a : MatArg α)
+    (b : VecArg α) (hg : checkDataUpdateAllowed st = .ok ())
+    (hp : p.isWhole = true) (hq : q.isWhole = true) (ha : a.isWhole = true) (hb : b.isWhole = true) :
+    let s1 := (updateP st p).1
+    let s2 := (updateQ s1 q).1
+    let s3 := (updateA s2 a).1
+    (∀ e, accP st p = .error e → updateData st p q a b = (st, .error (.badFormat e))) ∧
+    (∀ e, accP st p = .ok () → accQ st q = .error e →
+      updateData st p q a b = (s1, .error (.badFormat e)) ∧ (updateP st p).2 = .ok ()) ∧
+    (∀ e, accP st p = .ok () → accQ st q = .ok () → accA st a = .error e →
+      updateData st p q a b = (s2, .error (.badFormat e)) ∧
+      (updateP st p).2 = .ok () ∧ (updateQ s1 q).2 = .ok ()) ∧
+    (∀ e, accP st p = .ok () → accQ st q = .ok () → accA st a = .ok () → accB st b = .error e →
+      updateData st p q a b = (s3, .error (.badFormat e)) ∧
+      (updateP st p).2 = .ok () ∧ (updateQ s1 q).2 = .ok () ∧ (updateA s2 a).2 = .ok ()) :=
+  updateData_not_atomic st p q a b hg hp hq ha hb
+
+end rejection
+
+/-! ### round 3: the presolve guard as a condition on the user's data (with C09) -/
+
+/-- [S] **when is `PresolveIsActive` returned?**  For a well-formed problem the constructed data
+records a presolver — and then (`rejects_when_guarded`) EVERY update form of every operation is
+refused with `PresolveIsActive` and the state is unchanged — iff presolve is enabled and some
+row of a nonnegative cone of the collapsed cone list has `b[i] > (1 − 10ε)·infbound` (imported
+`C09.problemdata_new_spec`).  In particular with `presolve_enable = false`, or with all such
+`b[i]` below the bound, updates are never refused for this reason. -/
+theorem presolve_guard_iff [Add α] [Sub α] [Mul α] [Div α] [OfNat α 0] [OfNat α 1] [LT α]
+    [DecidableLT α] [FloatLike α] (P : Csc α) (q : Array α) (A : Csc α) (b : Array α)
+    (cones : List (ConeT α)) (presolve : Bool) (inf : α) (d : ProblemData α)
+    (hA : C16.Canonical A) (hAm : A.m = b.size) (hnum : Cones.numel cones = b.size) (hPsq : P.m = P.n)
+    (h : ProblemData.new P q A b cones presolve false inf = .ok d) :
+    d.presolver.isSome = true ↔
+      (presolve = true ∧ ∃ i, ∃ hi : i < b.size,
+        Cones.inNonneg (Cones.newCollapsed cones) i = true ∧ Presolve.threshold inf < b[i]) :=
+  presolver_recorded_iff P q A b cones presolve inf d hA hAm hnum hPsq h
+
 /-! ### non-vacuity and the recorded behaviour after a rejected partial update -/
 
 section examples
@@ -418,5 +855,63 @@ theorem rejected_partial_update_keeps_stale_norm :
   refine ⟨by decide, by decide, by decide, by decide⟩
 
 end examples
+
+/-! ### non-vacuity of the round-3 theorems (witnesses live in the lemma files) -/
+
+section examples_round3
+open Clarabel.Lemmas.KktSpec (KktInputs)
+
+/-- `update_data_not_atomic`: a rejected whole-form `update_data` that returns a state different
+from the one it was called on (`P̂` and the KKT copy already rewritten) -/
+example : ∃ (st : State Nat) (p : MatArg Nat) (q : VecArg Nat) (a : MatArg Nat) (b : VecArg Nat),
+    p.isWhole = true ∧ q.isWhole = true ∧ a.isWhole = true ∧ b.isWhole = true ∧
+    (∃ e, (updateData st p q a b).2 = .error e) ∧ (updateData st p q a b).1.P ≠ st.P :=
+  updateData_not_atomic_witness
+
+attribute [local instance] intFloatLikeOwn in
+/-- `own_maps_ok` / `kkt_in_sync_own`: the hypotheses hold for a concrete 1×1 problem over `ℤ`
+(`KktSolver.new` succeeds: `Lemmas/UpdateOwnMaps.exDataOwn_new`, KKT values `[5,7,0]`, LDL copy
+`[0,5,7]`, `AtoPAPt = [1,2,0]`) -/
+example : KktInputs exDataOwn.P exDataOwn.A
+    ([Solver.ConeSt.zero (α := Int) 1].map Solver.ConeSt.kktSpec) ∧
+    ((Solver.KktSolver.new exDataOwn.P exDataOwn.A [Solver.ConeSt.zero 1] exDataOwn.m exDataOwn.n
+        exLinOwn #[1, 0]).toOption.map (fun K => K.ldl.AtoPAPt.toList)) = some [1, 2, 0] := by
+  refine ⟨exDataOwn_inputs, ?_⟩
+  have := exDataOwn_new
+  revert this
+  cases Solver.KktSolver.new exDataOwn.P exDataOwn.A [Solver.ConeSt.zero 1] exDataOwn.m exDataOwn.n
+      exLinOwn #[1, 0] with
+  | error e => intro h; cases h
+  | ok K =>
+    intro h
+    simp only [Except.toOption, Option.map_some, Option.some.injEq, Prod.mk.injEq] at h ⊢
+    exact h.2.2.2.2
+
+attribute [local instance] feFloatLikeRat in
+/-- `state_equiv_rebuilt` / `norms_are_final_user_norms`: a live equilibrated state over `ℚ`
+(`d = 2, e = 3, c = 2`) and a history with an accepted partial update, whole updates, a solve and
+an `update_data` satisfy every hypothesis -/
+example : feStateQ.ScaleOK ∧ feStateQ.MapsOK ∧ feStateQ.KktSync ∧ feStateQ.NormCacheOK ∧
+    AcceptedRun feStateQ feOpsQ :=
+  ⟨feMk_scaleOK _ _ _ _ _ _ _ _ _ (by norm_num) (by norm_num) (by norm_num), feMk_mapsOK _ _ _ _ _ _ _ _ _,
+   feMk_sync _ _ _ _ _ _ _ _ _, ⟨Or.inl rfl, Or.inl rfl⟩, feOpsQ_accepted⟩
+
+/-- `solved_certifies_final_problem`: the same over `ℝ` (the joint satisfiability of the `info`
+hypotheses is shown in `Lemmas/UpdateFreshEquiv.lean`, `fe_info_exists`) -/
+example : feStateR.ScaleOK ∧ feStateR.MapsOK ∧ feStateR.KktSync ∧ AcceptedRun feStateR feOpsR :=
+  ⟨feMk_scaleOK _ _ _ _ _ _ _ _ _ (by norm_num) (by norm_num) (by norm_num), feMk_mapsOK _ _ _ _ _ _ _ _ _,
+   feMk_sync _ _ _ _ _ _ _ _ _, feOpsR_accepted⟩
+
+/-- `presolve_guard_iff`: the hypotheses hold for the 2×1 problem of `C09` (one row above the
+bound, so the guard is active) -/
+example : ∃ d, ProblemData.new (⟨1, 1, #[0, 0], #[], #[]⟩ : Csc ℝ) #[1] ⟨2, 1, #[0, 2], #[0, 1], #[1, 2]⟩
+    #[1, 1e30] [ConeT.nonneg 2] true false 1e20 = .ok d := by
+  have hA : C16.Canonical (⟨2, 1, #[0, 2], #[0, 1], #[1, 2]⟩ : Csc ℝ) := C16.check_format_canonical _ (by rfl)
+  obtain ⟨_, _, d, _, _, _, _, hnew, _⟩ :=
+    C09.problemdata_new_spec (⟨1, 1, #[0, 0], #[], #[]⟩ : Csc ℝ) #[1] ⟨2, 1, #[0, 2], #[0, 1], #[1, 2]⟩
+      #[1, 1e30] [ConeT.nonneg 2] true 1e20 hA rfl rfl rfl
+  exact ⟨d, hnew⟩
+
+end examples_round3
 
 end Clarabel.C08
